@@ -23,6 +23,7 @@ package tally
 import (
 	"bytes"
 	"sync"
+	"unicode/utf8"
 )
 
 var (
@@ -156,6 +157,14 @@ func (c *ValidCharacters) sanitizeFn(repChar rune) SanitizeFn {
 				if c.Characters[i] == ch {
 					validCurr = true
 					break
+				}
+			}
+
+			// an invalid UTF-8 byte decodes as utf8.RuneError (width 1); it is
+			// never valid, even when U+FFFD itself is an allowed character
+			if validCurr && ch == utf8.RuneError {
+				if _, width := utf8.DecodeRuneInString(value[idx:]); width == 1 {
+					validCurr = false
 				}
 			}
 
